@@ -158,3 +158,75 @@ func SortedKeys(m map[string]token.Pos) []string {
 	sort.Strings(out)
 	return out
 }
+
+var calleeCache = map[*World]map[string][]string{}
+
+// StaticCalleeKeys maps every declared module function (by SSAKey) to the keys of the module functions it calls
+// statically (closures attributed to the enclosing declaration).
+func (w *World) StaticCalleeKeys() map[string][]string {
+	if m, ok := calleeCache[w]; ok {
+		return m
+	}
+	m := map[string][]string{}
+	for _, fn := range w.SrcFuncs() {
+		if fn.Parent() != nil {
+			continue
+		}
+		k := SSAKey(fn)
+		seen := map[string]bool{}
+		for _, c := range Calls(fn, true) {
+			sf := StaticFn(c)
+			if sf == nil || !InModFn(sf) {
+				continue
+			}
+			for sf.Parent() != nil {
+				sf = sf.Parent()
+			}
+			ck := SSAKey(sf)
+			if ck != k && !seen[ck] {
+				seen[ck] = true
+				m[k] = append(m[k], ck)
+			}
+		}
+	}
+	calleeCache[w] = m
+	return m
+}
+
+// DeepCounts adds to each function's own item counts the counts of its static module callees up to depth,
+// so that moving a call into a helper does not change the caller's totals.
+func (w *World) DeepCounts(direct map[string]map[string]int, depth int) map[string]map[string]int {
+	callees := w.StaticCalleeKeys()
+	out := map[string]map[string]int{}
+	var visit func(k string, d int, acc map[string]int, seen map[string]bool)
+	visit = func(k string, d int, acc map[string]int, seen map[string]bool) {
+		if seen[k] {
+			return
+		}
+		seen[k] = true
+		for item, n := range direct[k] {
+			acc[item] += n
+		}
+		if d >= depth {
+			return
+		}
+		for _, c := range callees[k] {
+			visit(c, d+1, acc, seen)
+		}
+	}
+	keys := map[string]bool{}
+	for k := range direct {
+		keys[k] = true
+	}
+	for k := range callees {
+		keys[k] = true
+	}
+	for k := range keys {
+		acc := map[string]int{}
+		visit(k, 0, acc, map[string]bool{})
+		if len(acc) > 0 {
+			out[k] = acc
+		}
+	}
+	return out
+}
